@@ -59,7 +59,7 @@ CHAINS = {
 def _tier(tier):
     if tier == "quick":
         return {
-            "gradient": {"kinds": ("hex", "tet5", "tet6"), "dims": ((1, 1, 1), (2, 1, 1), (2, 2, 2)),
+            "gradient": {"kinds": ("hex", "tet5", "tet6", "hextet"), "dims": ((1, 1, 1), (2, 1, 1), (2, 2, 2)),
                          "perts": ((0.0, 0, 0), (1.0, 1, 1), (1.0, 3, 0)), "node_numberings": M.NUMBERINGS,
                          "element_numberings": ("identity", "times10plus5", "reversed"),
                          "row_orders(Gradient3D)": ("given", "reversed_blocks", "interleaved"),
@@ -76,7 +76,7 @@ def _tier(tier):
                         "chains": {"values": (1, 3), "variants": ("plain", "gaps-reversed-rows", "interleaved")}},
         }
     return {
-        "gradient": {"kinds": ("hex", "tet5", "tet6"), "dims": DIMS2,
+        "gradient": {"kinds": ("hex", "tet5", "tet6", "hextet"), "dims": DIMS2,
                      "perts": ((0.0, 0, 0), (1.0, 0, 1), (1.0, 2, 0)), "node_numberings": M.NUMBERINGS,
                      "element_numberings": M.NUMBERINGS,
                      "row_orders(Gradient3D)": ("given", "reversed_blocks", "interleaved"),
@@ -368,6 +368,17 @@ def check_hotspot(case):
         same_partition = len(set(zip(got, exp))) == len(set(exp)) == len(set(got))
         key = "C19/HotSpot/label-order" if same_partition else "C19/HotSpot/components"
         return [(key, {"rows": rows, "values": vals, "got": got, "expected": exp, "peaks": peaks})], "wrong", exp
+    # ONE kept accessor object asked for another threshold first and then for this one: the same labels again
+    try:
+        with warnings.catch_warnings():
+            warnings.simplefilter("ignore")
+            kept = df.hotspot
+            kept.calc("v", limit_frac=0.5)
+            again = [int(v) for v in kept.calc("v", limit_frac=case["frac"]).tolist()]
+    except Exception as e:                       # noqa: BLE001
+        return [("C19/HotSpot/kept-accessor/raises-%s" % type(e).__name__, {"msg": str(e)[:200]})], "raise", exp
+    if again != got:
+        return [("C19/HotSpot/kept-accessor-asked-before/labels-differ", {"rows": rows, "values": vals, "fresh": got, "kept": again})], "wrong", exp
     return [], "ok", exp
 
 
